@@ -47,6 +47,10 @@ type Step struct {
 	// Off (tick only): clock slot minus tick slot: 0, -1 (clock drift the handlers tolerate) or +1
 	// (tick handled late). The interpreter ignores an offset that would put the clock into another epoch.
 	Off int `json:"off,omitempty"`
+	// Late (reorg only): the notice is stamped with the slot before the clock's: the head event was
+	// raised during the previous slot and reaches the handler only after the next tick was processed
+	// (Scheduler.reorg and the feed are unbuffered, the handler's select picks among ready channels).
+	Late bool `json:"late,omitempty"`
 	// Comm / Other (indices only): new validator set (bit i of Comm = validator i+1 is one of the
 	// operator's validators; bit j of Other = validator 5+j is active but belongs to other operators)
 	Comm  uint8 `json:"comm,omitempty"`
